@@ -98,7 +98,13 @@ fn gen_reply(rng: &mut Rng, other: u16) -> Reply {
 fn gen_user(rng: &mut Rng) -> UserKind {
     match rng.below(12) {
         0..=5 => gen_command(rng),
-        6 => UserKind::ReadClasses(*rng.pick(&[0x0Fu8, 0x07, 0x01])),
+        6 => {
+            if rng.chance(1, 3) {
+                UserKind::ReadCustom(*rng.pick(&[0x0Fu8, 0x07, 0x01]))
+            } else {
+                UserKind::ReadClasses(*rng.pick(&[0x0Fu8, 0x07, 0x01]))
+            }
+        }
         7 => UserKind::TimeSync(rng.range(1, 3) as u8),
         8 => UserKind::Restart { cold: rng.bool() },
         9 => {
@@ -346,7 +352,7 @@ struct User {
 
 fn first_func(kind: &UserKind) -> Option<u8> {
     Some(match kind {
-        UserKind::ReadClasses(_) => 1,
+        UserKind::ReadClasses(_) | UserKind::ReadCustom(_) => 1,
         UserKind::Command { sbo: true, .. } => 3,
         UserKind::Command { sbo: false, .. } => 5,
         UserKind::TimeSync(1) => 24,
@@ -1349,6 +1355,7 @@ pub fn analyse(
 fn kind_name(k: &UserKind) -> &'static str {
     match k {
         UserKind::ReadClasses(_) => "read",
+        UserKind::ReadCustom(_) => "read-with-handler",
         UserKind::Command { sbo: true, .. } => "command-sbo",
         UserKind::Command { sbo: false, .. } => "command-direct",
         UserKind::TimeSync(_) => "time-sync",
